@@ -104,8 +104,46 @@ def strategy():
     return gen_maps.pipeline_case(kinds=KINDS, weight_default=4, flank_repeat=1)
 
 
+def check_many_records(case):
+    """XmapEntryID counts 1,2,3,... also in a file of a thousand records and more (the writer driven directly with rows of
+    a unit-level alignment repeated; the end-to-end runs write a dozen records at most)"""
+    import argparse
+    import io
+    from src.alignment.alignment_results import AlignmentResults
+    from src.parsers.xmap_reader import XmapReader
+    from vlib import gen_unit, xmap_text
+    from vlib.core import sut
+    ref, qry = gen_unit.build_maps(case)
+    aligner = gen_unit.build_aligner(case["params"])
+    peaks = gen_unit.build_peaks(case)
+    rows = [r for r in (sut(aligner.align, ref, qry, sub, case["rev"]) for sub in (peaks, peaks[:1])) if r.alignedPairs]
+    if not rows:
+        return {"nontrivial": False, "classes": ["no-row"]}
+    rows = [rows[i % len(rows)] for i in range(case["tile"])]
+    buf = io.StringIO()
+    sut(XmapReader().writeAlignments, buf, AlignmentResults("ref.cmap", "qry.cmap", rows), argparse.Namespace(referenceFile="ref.cmap", queryFile="qry.cmap"))
+    recs = xmap_text.parse(buf.getvalue())["records"]
+    req(len(recs) == len(rows), "record-count", f"{len(rows)} rows written as {len(recs)} records")
+    bad = next((i for i, r in enumerate(recs, 1) if r["XmapEntryID"] != str(i)), None)
+    req(bad is None, "entry-id-not-consecutive", f"record {bad} of {len(recs)} carries XmapEntryID {recs[bad - 1]['XmapEntryID'] if bad else None}")
+    for r, row in zip(recs, rows):
+        req(r["pairs"] == [(p.reference.siteId, p.query.siteId) for p in row.alignedPairs], "record-pairs-of-another-row",
+            f"record {r['XmapEntryID']} lists the pairs of another row")
+    return {"nontrivial": True, "classes": [f"records>={1000 if len(recs) >= 1000 else 0}"]}
+
+
+@st.composite
+def many_records_strategy(draw):
+    from vlib import gen_unit
+    c = draw(gen_unit.aligner_case(1, 3))
+    c["tile"] = draw(st.sampled_from([999, 1000, 1001, 1024, 2001, 2300, 4097]))
+    return c
+
+
 def subchecks(tier):
     q = tier == "quick"
     return [Sub("records", "hyp", check, strategy=strategy, examples=1400 if q else 30000, shrink_budget=150,
                 describe="every record of every file vs harness maps", sample_filter=gen_maps.short_case,
-                required_classes=("second-pass-reverse", "offset-query", "reverse-record"))]
+                required_classes=("second-pass-reverse", "offset-query", "reverse-record")),
+            Sub("many-records", "hyp", check_many_records, strategy=many_records_strategy, examples=48 if q else 800, shrink_budget=6,
+                describe="999-4097 records written by XmapReader.writeAlignments: XmapEntryID 1,2,3,...")]
